@@ -289,6 +289,23 @@ func (r *rwRT) ruleAllFiles(strict bool) {
 		if cc.Fn != nil && cc.Fn.Name() == "LookupPackage" {
 			return []Answer{{Ret: []AV{Sym{Name: "coPkg", NN: true}}, NoEvent: true}}
 		}
+		// the package of one of the API objects the rewriter has looked up is the API package as well
+		name, recv := cc.Method, cc.Recv
+		if name == "" && cc.Fn != nil && cc.Fn.Signature.Recv() != nil && len(cc.Args) == 1 {
+			name, recv = cc.Fn.Name(), cc.Args[0]
+		}
+		if name == "Pkg" && recv != nil {
+			rv := unwrap(recv)
+			if fr, ok := rv.(FieldRef); ok {
+				rv = unwrap(fr.Base)
+			}
+			if sy, ok := rv.(Sym); ok {
+				switch epochRe.ReplaceAllString(sy.Name, "") {
+				case "r.yieldFunc", "r.yieldFromFunc", "r.iterType":
+					return []Answer{{Ret: []AV{Sym{Name: "coPkg.Types", NN: true}}, NoEvent: true}}
+				}
+			}
+		}
 		return nil
 	})
 	outs := in.Run(nil, fn, []AV{Sym{Name: "r", NN: true}, Sym{Name: "printer", NN: true}}, nil)
